@@ -81,7 +81,7 @@ impl Prop for C11 {
   const ID: &'static str = "C11";
   fn budget(t: Tier) -> u32 { t.pick(16_000, 200_000) }
   fn strategy(t: Tier, _k: &Known) -> BoxedStrategy<Case> {
-    let (mr, mc) = t.pick((4, 4), (8, 8));
+    let (mr, mc) = t.pick((6, 5), (9, 8)); // (a four-band stack whose inner bands differ in height needs at least 5 result rows)
     (pick(all_ek()), tiling(mr, mc), 0u8..10, any::<proptest::sample::Index>(), any::<proptest::sample::Index>(), any::<bool>(), pick(all_ek()))
       .prop_map(|(ek, bands, badsel, bi, pi, up, ek2)| {
         let b = bi.index(bands.len());
@@ -109,7 +109,7 @@ impl Prop for C11 {
       }).boxed()
   }
   fn rule() -> &'static str {
-    "case = tiling of an RxC result (R,C ≤ 4 quick / 8 thorough) into 1-4 row bands of 1-4 blocks each; every block is a scalar, a 1x1 \
+    "case = tiling of an RxC result (R ≤ 6, C ≤ 5 quick / R ≤ 9, C ≤ 8 thorough) into 1-4 row bands of 1-4 blocks each; every block is a scalar, a 1x1 \
      matrix, a row vector, a column vector or a matrix, bound to a variable or written inline; all element kinds; elements are distinct by \
      final position. Invalid variants perturb one block height/width by ±1, perturb two blocks in compensating directions (one taller and one shorter in a band, one wider and one narrower in two bands, so that cell totals can still agree), or give one block another kind. Non-trivial = ≥ 2 blocks of \
      which one is not a scalar, or an invalid variant; distinct key = (block shape classes per band, kind, invalid class, outcome)."
